@@ -537,27 +537,30 @@ Proof.
 Qed.
 
 Lemma dyn_first_bad_spec : forall r0 runs,
-  dyn_first_bad r0 runs = 0 <-> Forall (fun tur => snd (fst tur) = true /\ snd tur = r0) runs.
+  dyn_first_bad r0 runs = 0 <->
+  Forall (fun tur => snd (fst tur) = true /\ link_exc (snd tur) = false /\ snd tur = r0) runs.
 Proof.
   intros r0 runs. induction runs as [|[[t u] r] runs IH]; simpl.
   - split; [constructor | reflexivity].
   - destruct u; simpl.
-    + destruct (zlist_eqb r r0) eqn:E; simpl.
-      * apply zlist_eqb_eq in E. subst r. rewrite IH. split.
-        -- intros H. constructor; [split; reflexivity | exact H].
-        -- intros H. inversion H; assumption.
-      * split.
-        -- destruct (Nat.eqb t 0) eqn:T; [discriminate|]. apply Nat.eqb_neq in T. intros H. lia.
-        -- intros H. apply Forall_inv in H. simpl in H. destruct H as [_ Hr]. subst r.
-           assert (zlist_eqb r0 r0 = true) by (apply zlist_eqb_eq; reflexivity). congruence.
+    + destruct (link_exc r) eqn:L.
+      * split; [intros H; lia|]. intros H. apply Forall_inv in H. simpl in H. destruct H as [_ [Hl _]]. congruence.
+      * destruct (zlist_eqb r r0) eqn:E; simpl.
+        -- apply zlist_eqb_eq in E. subst r. rewrite IH. split.
+           ++ intros H. constructor; [repeat split; try reflexivity; exact L | exact H].
+           ++ intros H. inversion H; assumption.
+        -- split.
+           ++ destruct (Nat.eqb t 0) eqn:T; [discriminate|]. apply Nat.eqb_neq in T. intros H. lia.
+           ++ intros H. apply Forall_inv in H. simpl in H. destruct H as [_ [_ Hr]]. subst r.
+              assert (zlist_eqb r0 r0 = true) by (apply zlist_eqb_eq; reflexivity). congruence.
     + split; [intros H; lia|]. intros H. apply Forall_inv in H. simpl in H. destruct H as [Hu _]. discriminate.
 Qed.
 
-(* the dynamic judge accepts a case iff no call changed an argument or a default AND every re-presentation
-   of the input produced the bit-identical result encoding of the base call *)
+(* the dynamic judge accepts a case iff no call changed an argument or a default, no call raised a linking-kind
+   exception, AND every re-presentation / re-execution produced the bit-identical result encoding of the base call *)
 Theorem dyn_holds_spec : forall t0 u0 r0 rest,
   dyn_holds ((t0, u0, r0) :: rest) = 0 <->
-  Forall (fun tur => snd (fst tur) = true /\ snd tur = r0) ((t0, u0, r0) :: rest).
+  Forall (fun tur => snd (fst tur) = true /\ link_exc (snd tur) = false /\ snd tur = r0) ((t0, u0, r0) :: rest).
 Proof. intros t0 u0 r0 rest. unfold dyn_holds. apply dyn_first_bad_spec. Qed.
 
 (* ---------------------------------------------------------------- positions: what the harness reads back *)
